@@ -645,15 +645,27 @@ func c17QuotaMonitor(t *testing.T, kind, name string) {
 	}
 	mark("sched")
 	// bounded-preemption enumeration, two racers
-	exploreRuns := run.Pick(120, 3000)
+	exploreRuns := run.Pick(100, 3000)
 	for _, Q := range []int{1, 2} {
 		if run.Violations() >= 20 {
 			break
 		}
 		cs := c17QCase{Kind: kind, Quota: Q, N: 2, Mode: "explore", Prefill: Q - 1, Nodes: Q} // Q=2: the two racers sit on different nodes
-		st := vk.Explore(2, exploreRuns, 2000, func(s *vk.Sched) func(bool) { return c17SchedScenario(run, cs, s) })
+		// logical budget: total scheduling decisions of this enumeration (a repaired tree that
+		// retries on a storage lock makes schedules long; time is never the bound)
+		stepBudget, stepsUsed := run.Pick(3000, 150000), 0
+		st := vk.Explore(2, exploreRuns, 400, func(s *vk.Sched) func(bool) {
+			if stepsUsed >= stepBudget {
+				return func(bool) { run.Count("explore_runs_skipped_step_budget", 1) }
+			}
+			after := c17SchedScenario(run, cs, s)
+			return func(ok bool) {
+				stepsUsed += len(s.Trace())
+				after(ok)
+			}
+		})
 		run.Count(pre+"explore_schedules", int64(st.Distinct))
-		if st.Complete {
+		if st.Complete && stepsUsed < stepBudget {
 			run.Count(pre+"explore_complete", 1)
 		}
 	}
